@@ -1,4 +1,4 @@
-import Cjet.Lemmas.DaemonC07Base
+import Cjet.Lemmas.DaemonC07Own
 import Cjet.Lemmas.Alloc
 /-!
 # C07 — all memory, descriptors and timers are reclaimed
@@ -139,6 +139,26 @@ theorem timer_ledger (cfg : Config) (us : List User) (ops : List Op)
 example : ∀ t, t ∈ heldTimers exRun.1 ↔ (t < exRun.1.nextTimer ∧ t ∉ destroyed exRun.2.flatten) :=
   timer_ledger {} [] exOps (by decide +kernel) (by decide +kernel)
 
+/-- Why `timer_ledger` needs distinct routed ids — a counterexample ON THE MODEL with address tokens
+    that `%p` never prints: requesters 2 and 3 have the tokens `1_zz` and `zz`; their requests with
+    the ids `"q"` and `"q_0"` get the same routed id `q_0_1_z` (counter values 0 and 1).  The
+    owner's reply removes BOTH entries from its table (`HASHTABLE_REMOVE` by key; the model filters
+    by id) but destroys only the first entry's timer: timer 1 is created, not destroyed, and held
+    by no entry. -/
+def cexReq (method : String) (id : String) (params : List (Bytes × Json)) : Json :=
+  .obj [(k "method", mkStr method), (k "id", mkStr id), (k "params", .obj params)]
+def cexOps : List Op :=
+  [.connect 1 false true (k "0x1"), .connect 2 false true (k "1_zz"), .connect 3 false true (k "zz"),
+   .message 1 (some (cexReq "add" "a" [(k "path", mkStr "a"), (k "value", exNum 1)])) {},
+   .message 2 (some (cexReq "set" "q" [(k "path", mkStr "a"), (k "value", exNum 2)])) {},
+   .message 3 (some (cexReq "set" "q_0" [(k "path", mkStr "a"), (k "value", exNum 3)])) {},
+   .message 1 (some (.obj [(k "id", mkStr "q_0_1_z"), (k "result", .bool true)])) {}]
+
+theorem timer_ledger_counterexample :
+    let r := run {} {} cexOps
+    (1 < r.1.nextTimer ∧ 1 ∉ destroyed r.2.flatten ∧ 1 ∉ heldTimers r.1) ∧ ¬ (∀ op ∈ cexOps, OpOk op) := by
+  decide +kernel
+
 /-! ## 2. the idle baseline -/
 
 /-- `baseline_when_no_peers`: a reachable state without peers has an empty path index and holds no
@@ -218,6 +238,61 @@ theorem term_releases_all (cfg : Config) (us : List User) (ops : List Op) (orc :
 
 example : let r := run {} {} (exOps ++ termOps exRun.1 (fun _ => {}))
     r.1.nextTimer = 2 ∧ destroyed r.2.flatten = [0, 1] := by decide +kernel
+
+/-! ## 3. ownership: every object has exactly one owner; a teardown releases exactly the leaver's -/
+
+/-- `objects_owned_once`: in every reachable state every element is in exactly one peer's list
+    (paths pairwise different over all lists) and has exactly one index entry, every fetch is in
+    exactly one peer's list (uids pairwise different), every routing entry is in exactly one table —
+    the one of the peer it names as owner — and carries its own timer. -/
+theorem objects_owned_once (cfg : Config) (us : List User) (ops : List Op) :
+    let s := (run cfg { users := us } ops).1
+    (elemPaths s).Nodup ∧ (s.index.map (·.1)).Perm (elemPaths s) ∧
+    (fetchUids s).Nodup ∧
+    (heldTimers s).Nodup ∧ (∀ p ∈ s.peers, ∀ r ∈ p.routes, r.owner = p.conn) ∧
+    (∀ p ∈ s.peers, ∀ e ∈ p.elements, e.owner = p.conn) := by
+  intro s
+  have h5 : C05.Inv s := C05.run_inv (C05.inv_init us) ops
+  have h1 : C01.Inv cfg s := by
+    obtain ⟨tr, h, _⟩ := C01.run_exec (cfg := cfg) ops (C01.inv_init cfg us)
+    exact h.inv (C01.inv_init cfg us)
+  exact ⟨elemPaths_nodup h5, index_perm_elemPaths h5, fetchUids_nodup h1,
+    (held_timers_live cfg us ops).1, fun p hp r hr => (h5.routes p hp r hr).1, h5.owner⟩
+
+/-- `close_releases_exactly`: a closing step (`C05.Closes`: a `disconnect c`, or a message of `c`
+    the daemon rejects; `x` is the working context when `free_peer_resources` starts, `x.st = s` for
+    a disconnect) takes away, as multisets, exactly: the elements and fetches of the leaving peer's
+    own lists, the routing entries of its own table and its own requests in the other tables
+    (`requestedBy`), with their timers — which are exactly the timers the teardown destroys — and the
+    leaver's index entries.  Every other object is still there, once. -/
+theorem close_releases_exactly (cfg : Config) (s : State) (hr : C05.Reachable cfg s) (op : Op) (c : Nat)
+    (x : Ctx) (hx : C05.Closes cfg s op c x) (p : Peer) (hp : findPeer x.st.peers c = some p) :
+    let s' := (step cfg s op).1
+    (elemPaths x.st).Perm (p.elements.map (·.path) ++ elemPaths s') ∧
+    (fetchUids x.st).Perm (p.fetches.map (·.uid) ++ fetchUids s') ∧
+    (allRoutes x.st).Perm (p.routes ++ requestedBy x.st c ++ allRoutes s') ∧
+    (heldTimers x.st).Perm ((p.routes ++ requestedBy x.st c).map (·.timer) ++ heldTimers s') ∧
+    destroyed (step cfg s op).2 = destroyed x.out.reverse ++ (p.routes ++ requestedBy x.st c).map (·.timer) ∧
+    s'.index = x.st.index.filter (·.2 != c) ∧ s'.peers.map (·.conn) = (x.st.peers.map (·.conn)).filter (· != c) := by
+  intro s'
+  have hI := hr.inv
+  have hIx := hx.inv hI
+  have hs' : s' = C05.afterClose x.st c := hx.st_eq hI
+  have hroutes := allRoutes_split hIx.nodup hp
+  refine ⟨?_, ?_, ?_, ?_, closes_destroyed hI hx hp, ?_, ?_⟩
+  · rw [hs', elemPaths_afterClose]
+    exact peers_split hIx.nodup hp _
+  · rw [hs', fetchUids_afterClose]
+    exact peers_split hIx.nodup hp _
+  · rw [hs']; exact hroutes
+  · rw [hs', heldTimers_eq_map, heldTimers_eq_map, ← List.map_append]
+    exact hroutes.map _
+  · rw [hs']; rfl
+  · rw [hs']; exact C05.conns_afterClose x.st c
+
+example : C05.Closes {} exRun.1 (.disconnect 1 {}) 1 (mkCtx exRun.1 {}) ∧
+    (findPeer (mkCtx exRun.1 {}).st.peers 1).isSome = true :=
+  ⟨⟨by decide +kernel, Or.inl ⟨_, rfl, rfl⟩⟩, by decide +kernel⟩
 
 /-! ## B. the allocator (`src/alloc.c`, model `Cjet.Alloc`)
 
